@@ -120,6 +120,7 @@ Theorem crash_store_rot w r n k D U :
   let s' := w_st (fst (step w (HReq r))) in
   exists l s2 o cks,
     start (req_s1 w r) (req_q w r) = (s2, Ok (Some o), cks) /\ l = rev (evs s2) /\
+    length l = length (evs (req_end w r)) /\
     store s' = frozen (req_s1 w r) l n /\
     cache s' = [] /\ plan s' = [] /\ now s' = now (w_st w) /\ conf s' = conf (w_st w) /\
     w_jars (fst (step w (HReq r))) = w_jars w /\
@@ -147,7 +148,8 @@ Proof.
   destruct Hev as (Hev & Hfn & Hfc). rewrite Hend in C4, C5, C6. rewrite Hev in C6.
   assert (Hst : store (w_st (fst (step w (HReq r)))) = frozen (req_s1 w r) l n).
   { rewrite C6, El. reflexivity. }
-  exists l, s2, o, cks. split; [exact E|]. split; [exact El|]. split; [exact Hst|].
+  exists l, s2, o, cks. split; [exact E|]. split; [exact El|].
+  split; [rewrite Hend, Hev, El; apply rev_length|]. split; [exact Hst|].
   split; [exact C1|]. split; [exact C2|].
   split; [rewrite C4, Hfn, Hnow; reflexivity|].
   split; [rewrite C5, Hfc, Hconf; reflexivity|].
